@@ -539,4 +539,555 @@ theorem conv_hasT (hF : FloatLaws F) : ∀ (A : List (Bytes × List MV)) (cs : L
         rw [hp, ih]
     · simp at h
 
+
+theorem lookupCol_append_none {k : Bytes} {v : List GoVal} : ∀ {X : List (Bytes × List GoVal)},
+    lookupCol k X = none → lookupCol k (X ++ [(k, v)]) = some v
+  | [], _ => by simp [lookupCol]
+  | (k', v') :: X, h => by
+    simp only [lookupCol] at h
+    split at h
+    · simp at h
+    · rename_i hk
+      simp only [List.cons_append, lookupCol, hk]
+      exact lookupCol_append_none h
+
+theorem replaceCol_append_none {k : Bytes} {v v' : List GoVal} : ∀ {X : List (Bytes × List GoVal)},
+    lookupCol k X = none → replaceCol k v' (X ++ [(k, v)]) = X ++ [(k, v')]
+  | [], _ => by simp [replaceCol]
+  | (k', w) :: X, h => by
+    simp only [lookupCol] at h
+    split at h
+    · simp at h
+    · rename_i hk
+      have ih := replaceCol_append_none (k := k) (v := v) (v' := v') h
+      simp [replaceCol, hk, ih]
+
+theorem convertCols_snoc {name : Bytes} {ys : List GoVal} {c : ColRec} (hy : ys ≠ [])
+    (hc : convertCol F name ys = some c) : ∀ (X : List (Bytes × List GoVal)) (cs : List ColRec),
+    convertCols F X = some cs → convertCols F (X ++ [(name, ys)]) = some (cs ++ [c])
+  | [], cs, h => by
+    simp [convertCols] at h; subst h
+    rw [List.nil_append, convertCols_cons_ne F hy, hc]; rfl
+  | (n, xs) :: X, cs, h => by
+    cases xs with
+    | nil =>
+      simp only [convertCols, List.isEmpty_nil, if_true] at h
+      simp only [List.cons_append, convertCols, List.isEmpty_nil, if_true]
+      exact convertCols_snoc hy hc X cs h
+    | cons x xs =>
+      rw [convertCols_cons_ne F (by simp)] at h
+      rw [List.cons_append, convertCols_cons_ne F (by simp)]
+      split at h
+      · rename_i c1 cs1 h1 h2
+        simp at h; subst h
+        rw [h1, convertCols_snoc hy hc X cs1 h2]; rfl
+      · simp at h
+
+theorem normAll_ints (m : Int) : ∀ (ts : List Int),
+    normAll F m (ts.map fun t => GoVal.int IK.i64 t) = some (ts.map fun t => GoVal.int IK.i64 (applyMult m t))
+  | [] => rfl
+  | t :: ts => by simp [normAll, toInt64Ts, normAll_ints m ts]
+
+theorem convertCol_time_ints (f : Int → Int) (ts : List Int) (hne : ts ≠ []) :
+    convertCol F timeName ((ts.map fun t => GoVal.int IK.i64 (f t)).map (sanVal san))
+      = some ⟨timeName, .i64 (ts.map f), none⟩ := by
+  cases ts with
+  | nil => exact absurd rfl hne
+  | cons t0 tl =>
+    have hg := gTimeAll_ints F san f (t0 :: tl)
+    simp only [List.map_cons, sanVal] at hg
+    simp only [convertCol, List.map_cons, firstNonNilG, sanVal, gIsNil, Bool.false_eq_true, if_false]
+    rw [hg]
+    simp [timeName]
+
+theorem numRecordsOf_all {n : Nat} (hn : 0 < n) : ∀ (L : List (Bytes × List GoVal)), L ≠ [] →
+    (∀ q ∈ L, q.2.length = n) → numRecordsOf L = n
+  | [], h, _ => absurd rfl h
+  | (name, xs) :: rest, _, h => by
+    have hl := h (name, xs) (by simp)
+    cases xs with
+    | nil => simp at hl; omega
+    | cons x xs => simpa [numRecordsOf] using hl
+
+theorem replaceCol_lens {n : Nat} {k : Bytes} {v : List GoVal} (hv : v.length = n) :
+    ∀ (X : List (Bytes × List GoVal)), (∀ q ∈ X, q.2.length = n) → ∀ q ∈ replaceCol k v X, q.2.length = n
+  | [], _ => by simp [replaceCol]
+  | (k', w) :: X, h => by
+    simp only [replaceCol]
+    split
+    · intro q hq; simp at hq; rcases hq with rfl | hq
+      · exact hv
+      · exact h q (by simp [hq])
+    · intro q hq; simp at hq; rcases hq with rfl | hq
+      · exact h _ (by simp)
+      · exact replaceCol_lens hv X (fun q hq => h q (by simp [hq])) q hq
+
+theorem replaceCol_ne_nil {k : Bytes} {v : List GoVal} : ∀ {X : List (Bytes × List GoVal)},
+    X ≠ [] → replaceCol k v X ≠ []
+  | [], h => absurd rfl h
+  | (k', w) :: X, _ => by simp only [replaceCol]; split <;> simp
+
+theorem sanCols_lens {n : Nat} (X : List (Bytes × List GoVal)) (h : ∀ q ∈ X, q.2.length = n) :
+    ∀ q ∈ sanCols san X, q.2.length = n := by
+  intro q hq
+  simp only [sanCols, List.mem_map] at hq
+  obtain ⟨p, hp, rfl⟩ := hq
+  simpa using h p hp
+
+theorem hasCol_convAll (name : Bytes) : ∀ (A : List (Bytes × List MV)) (cs : List ColRec),
+    convAll F san A = some cs → hasCol cs name = A.any (fun p => p.1 == name)
+  | [], cs, h => by simp [convAll] at h; subst h; simp [hasCol]
+  | p :: A, cs, h => by
+    unfold convAll at h
+    split at h
+    · rename_i c cs' hc hcs
+      simp at h; subst h
+      have ih := hasCol_convAll name A cs' hcs
+      simp only [hasCol] at ih
+      simp [hasCol, typedColOf_name F san hc, ih]
+    · simp at h
+
+theorem lookupCol_some {A : List (Bytes × List MV)} {tcol : List GoVal}
+    (h : lookupCol timeName (A.map boxCol) = some tcol) :
+    ∃ p ∈ A, (p.1 == timeName) = true ∧ tcol = p.2.map boxS := by
+  induction A with
+  | nil => simp [lookupCol] at h
+  | cons p A ih =>
+    simp only [List.map_cons, boxCol, lookupCol] at h
+    split at h
+    · rename_i hp
+      simp at h
+      exact ⟨p, by simp, by simpa using hp, h.symm⟩
+    · obtain ⟨q, hq, h1, h2⟩ := ih h
+      exact ⟨q, by simp [hq], h1, h2⟩
+
+theorem convAll_mem : ∀ (A : List (Bytes × List MV)) (cs : List ColRec), convAll F san A = some cs →
+    ∀ p ∈ A, ∃ c, typedColOf F san p = some c
+  | [], _, _ => by simp
+  | p :: A, cs, h => by
+    unfold convAll at h
+    split at h
+    · rename_i c cs' hc hcs
+      intro q hq; simp at hq; rcases hq with rfl | hq
+      · exact ⟨c, hc⟩
+      · exact convAll_mem A cs' hcs q hq
+    · simp at h
+
+/-- what `tryDecodeColumnarTyped` returns from measurement, converted columns and row count -/
+def typedRecOf (m : Bytes) (cs : List ColRec) (n : Nat) (now : Int) : TypedRec :=
+  if hasCol cs timeName then ⟨m, cs, n, false⟩
+  else ⟨m, cs ++ [⟨timeName, .i64 (List.replicate n now), none⟩], n, true⟩
+
+/-- **columnar pipeline**: length check, time column (supplied or generated), normalisation,
+sanitisation and the typing chokepoint on the boxed array columns give the typed path's record,
+up to the value of a generated time column. -/
+theorem columnar_agrees (hF : FloatLaws F) (A : List (Bytes × List MV)) (cs : List ColRec) (n : Nat)
+    (m : Bytes) (gm : Option GoVal) (now : Int)
+    (hA : A ≠ []) (hlen : ∀ p ∈ A, p.2.length = n) (hn : 0 < n) (hd : distinctNames A = true)
+    (hconv : convAll F san A = some cs) (hm : extractMeas gm = some m) :
+    ∃ rec r', decodeColumnar F san now gm (A.map boxCol) = some rec ∧ typeItem F rec = .col r' ∧
+      maskRec r' = maskRec (typedRecOf m cs n now) := by
+  have hne : ∀ p ∈ A, p.2 ≠ [] := by
+    intro p hp h0; have := hlen p hp; rw [h0] at this; simp at this; omega
+  have hGlen : ∀ q ∈ A.map boxCol, q.2.length = n := by
+    intro q hq; simp only [List.mem_map] at hq; obtain ⟨p, hp, rfl⟩ := hq
+    simpa [boxCol] using hlen p hp
+  have hGne : A.map boxCol ≠ [] := map_ne_nil hA
+  obtain ⟨p0, A', rfl⟩ : ∃ p0 A', A = p0 :: A' := by
+    cases A with
+    | nil => exact absurd rfl hA
+    | cons p0 A' => exact ⟨p0, A', rfl⟩
+  have hc0 : (p0.2.map boxS).length = n := by simpa using hlen p0 (by simp)
+  have hlens : lensOk n ((p0 :: A').map boxCol) = true := by
+    simp only [lensOk, List.all_eq_true]
+    intro q hq; simpa using hGlen q hq
+  have hdec : ∀ cols2 gen, normalizeCols F (ensureTime now n ((p0 :: A').map boxCol)).1 = some cols2 →
+      (ensureTime now n ((p0 :: A').map boxCol)).2 = gen →
+      decodeColumnar F san now gm ((p0 :: A').map boxCol) = some ⟨m, sanCols san cols2, gen⟩ := by
+    intro cols2 gen h1 h2
+    simp only [decodeColumnar, hm, List.map_cons, boxCol, List.length_map]
+    simp only [List.map_cons, boxCol, List.length_map] at hlens h1 h2
+    have hl0 : p0.2.length = n := hlen p0 (by simp)
+    rw [hl0]
+    simp [hlens, h1, h2]
+  cases hl : lookupCol timeName ((p0 :: A').map boxCol) with
+  | none =>
+    have hnoT := lookupCol_none hl
+    obtain ⟨k, rfl⟩ : ∃ k, n = k + 1 := ⟨n - 1, by omega⟩
+    let gts : List GoVal := (List.replicate (k + 1) now).map fun t => GoVal.int IK.i64 (applyMult (tsMultG now) t)
+    have hens : ensureTime now (k + 1) ((p0 :: A').map boxCol)
+        = ((p0 :: A').map boxCol ++ [(timeName, genTimeCol now (k + 1))], true) := by
+      simp only [ensureTime, hl]
+    have hgen : genTimeCol now (k + 1) = (List.replicate (k + 1) now).map fun t => GoVal.int IK.i64 t := by
+      simp [genTimeCol, List.map_replicate]
+    have hnt : normalizeTime F (genTimeCol now (k + 1)) = some gts := by
+      rw [hgen]
+      have := normAll_ints F (tsMultG now) (List.replicate (k + 1) now)
+      simp only [List.replicate_succ, List.map_cons, normalizeTime, toInt64Ts] at this ⊢
+      exact this
+    have hnorm : normalizeCols F (ensureTime now (k + 1) ((p0 :: A').map boxCol)).1
+        = some ((p0 :: A').map boxCol ++ [(timeName, gts)]) := by
+      rw [hens]
+      simp only [normalizeCols, lookupCol_append_none hl, hnt, replaceCol_append_none hl]
+    have hD := hdec _ true hnorm (by rw [hens])
+    have hcv := conv_noT F san hF (p0 :: A') cs hnoT hne hconv
+    have htc := convertCol_time_ints F san (applyMult (tsMultG now)) (List.replicate (k + 1) now) (by simp)
+    have hcc : convertCols F (sanCols san ((p0 :: A').map boxCol ++ [(timeName, gts)]))
+        = some (cs ++ [⟨timeName, .i64 ((List.replicate (k + 1) now).map (applyMult (tsMultG now))), none⟩]) := by
+      have : sanCols san ((p0 :: A').map boxCol ++ [(timeName, gts)])
+          = sanCols san ((p0 :: A').map boxCol) ++ [(timeName, gts.map (sanVal san))] := by
+        simp [sanCols]
+      rw [this]
+      exact convertCols_snoc F (by simp [gts]) htc _ cs hcv
+    have hnr : numRecordsOf (sanCols san ((p0 :: A').map boxCol ++ [(timeName, gts)])) = k + 1 := by
+      apply numRecordsOf_all hn
+      · simp [sanCols]
+      · apply sanCols_lens
+        intro q hq
+        simp only [List.mem_append, List.mem_singleton] at hq
+        rcases hq with hq | rfl
+        · exact hGlen q hq
+        · simp [gts]
+    refine ⟨_, _, hD, by simp only [typeItem, hcc, hnr]; rfl, ?_⟩
+    have hh : hasCol cs timeName = false := by
+      rw [hasCol_convAll F san timeName _ cs hconv]
+      simp only [List.any_eq_false]
+      intro p hp; simpa using hnoT p hp
+    simp [maskRec, typedRecOf, hh]
+  | some tcol =>
+    obtain ⟨p, hp, hpt, rfl⟩ := lookupCol_some hl
+    obtain ⟨c, hc⟩ := convAll_mem F san _ cs hconv p hp
+    have hag := (typedColOf_agrees F san hF hc (hne p hp)).2
+    simp only [hpt, if_true] at hag
+    obtain ⟨gts, hnt, _⟩ := hag
+    have hgl : gts.length = n := by
+      rw [normalizeTime_length F hnt]; simpa using hlen p hp
+    have hpl : (p.2.map boxS) ≠ [] := map_ne_nil (hne p hp)
+    have hens : ensureTime now n ((p0 :: A').map boxCol) = ((p0 :: A').map boxCol, false) := by
+      simp only [ensureTime, hl]
+      cases hq : p.2.map boxS with
+      | nil => exact absurd hq hpl
+      | cons x xs => rfl
+    have hnorm : normalizeCols F (ensureTime now n ((p0 :: A').map boxCol)).1
+        = some (replaceCol timeName gts ((p0 :: A').map boxCol)) := by
+      rw [hens]; simp only [normalizeCols, hl, hnt]
+    have hD := hdec _ false hnorm (by rw [hens])
+    have hcc := conv_hasT F san hF (p0 :: A') cs _ gts hl hnt hd hne hconv
+    have hnr : numRecordsOf (sanCols san (replaceCol timeName gts ((p0 :: A').map boxCol))) = n := by
+      apply numRecordsOf_all hn
+      · have := replaceCol_ne_nil (k := timeName) (v := gts) hGne
+        intro h0; apply this
+        simp only [sanCols, List.map_eq_nil_iff] at h0; exact h0
+      · exact sanCols_lens san _ (replaceCol_lens hgl _ hGlen)
+    refine ⟨_, _, hD, by simp only [typeItem, hcc, hnr]; rfl, ?_⟩
+    have hh : hasCol cs timeName = true := by
+      rw [hasCol_convAll F san timeName _ cs hconv]
+      simp only [List.any_eq_true]
+      exact ⟨p, hp, hpt⟩
+    simp [maskRec, typedRecOf, hh]
+
+
+/-! ## the value of the `columns` key -/
+
+theorem keyIn_of_arrayCols (name : Bytes) : ∀ (kvs : List MV),
+    (arrayCols kvs).any (fun q => q.1 == name) = true → keyIn name kvs = true
+  | [], h => by simp [arrayCols] at h
+  | [_], h => by simp [arrayCols] at h
+  | k :: v :: rest, h => by
+    simp only [arrayCols] at h
+    simp only [keyIn, Bool.or_eq_true]
+    split at h
+    · rename_i nm w xs hk
+      simp only [List.any_cons, Bool.or_eq_true] at h
+      rcases h with h | h
+      · left; simp at h; simp [hk, h]
+      · right; exact keyIn_of_arrayCols name rest h
+    · right; exact keyIn_of_arrayCols name rest h
+
+theorem arrNoLater_distinct : ∀ (kvs : List MV), arrNoLater kvs = true → distinctNames (arrayCols kvs) = true
+  | [], _ => by simp [arrayCols, distinctNames]
+  | [_], _ => by simp [arrayCols, distinctNames]
+  | k :: v :: rest, h => by
+    simp only [arrNoLater, Bool.and_eq_true] at h
+    have ih := arrNoLater_distinct rest h.2
+    simp only [arrayCols]
+    split
+    · rename_i nm w xs hk
+      have h1 := h.1
+      simp only [isArr, if_true, hk, Bool.not_eq_true'] at h1
+      simp only [distinctNames, Bool.and_eq_true, Bool.not_eq_true', ih, and_true]
+      cases ha : (arrayCols rest).any (fun q => q.1 == nm) with
+      | false => rfl
+      | true => rw [keyIn_of_arrayCols nm rest ha] at h1; cases h1
+    · exact ih
+
+def colsCarveV : MV → Bool
+  | .map _ ckvs => colsCarve ckvs
+  | _ => true
+
+/-- **the `columns` value**: it boxes to a string-keyed map whose array entries (last wins) are
+exactly the array-valued pairs the typed path converted. -/
+theorem columnsVal_agrees (hF : FloatLaws F) (hfix : nonArrayDupFallsBack = true) {cv : MV}
+    {c : List ColRec × Nat} (h : typedColumnsVal F san cv = some c) (hcv : colsCarveV cv = true) :
+    ∃ w ckvs, cv = .map w ckvs ∧ goBox F cv = .ok (.smap (boxPairs F ckvs)) ∧
+      payloadColumns (boxPairs F ckvs) = (arrayCols ckvs).map boxCol ∧
+      arrayCols ckvs ≠ [] ∧ (∀ p ∈ arrayCols ckvs, p.2.length = c.2) ∧ 0 < c.2 ∧
+      distinctNames (arrayCols ckvs) = true ∧ convAll F san (arrayCols ckvs) = some c.1 := by
+  cases cv with
+  | map w ckvs =>
+    simp only [typedColumnsVal] at h
+    split at h
+    · simp at h
+    · rename_i hlen2
+      split at h
+      · rename_i acc n hT
+        split at h
+        · simp at h
+        · rename_i hne
+          simp at h; subst h
+          obtain ⟨cs, h1, h2, h3, _, h5, _, h7, h8⟩ := typedCols_inv F san hfix ckvs [] none _ hT
+          simp only [List.nil_append] at h2
+          subst h2
+          have hA : arrayCols ckvs ≠ [] := by
+            intro h0; rw [h0] at h1; simp [convAll] at h1; subst h1; simp at hne
+          have hkv := cols_KVok F san hF hfix ckvs [] none _ hT hcv
+          have hsc : ∀ p ∈ arrayCols ckvs, ∀ x ∈ p.2, scalar x = true := by
+            intro p hp
+            obtain ⟨c, hc⟩ := convAll_mem F san _ _ h1 p hp
+            have hpne : p.2 ≠ [] := by
+              intro h0; have := (h3 p hp).1; rw [h0] at this; simp at this
+            exact (typedColOf_agrees F san hF hc hpne).1
+          have hpay := payload_cols F ckvs hkv h7 hcv hsc
+          have hbox : goBox F (.map w ckvs) = .ok (.smap (boxPairs F ckvs)) := by
+            cases ckvs with
+            | nil => simp at hlen2
+            | cons k rest =>
+              cases rest with
+              | nil => simp at hlen2
+              | cons v rest =>
+                have hsm := goBoxSMap_ok F _ hkv
+                obtain ⟨⟨s, hs⟩, _⟩ := hkv
+                obtain ⟨kw, rfl⟩ := strKey_eq hs
+                simp [goBox, hsm]
+          refine ⟨w, ckvs, rfl, hbox, hpay, hA, ?_, ?_, arrNoLater_distinct ckvs h7, h1⟩
+          · intro p hp
+            have := (h3 p hp).2
+            simp at this; exact this.symm
+          · obtain ⟨p, hp⟩ := List.exists_mem_of_ne_nil _ hA
+            have := h3 p hp
+            simp at this; omega
+      · simp at h
+  | _ => simp [typedColumnsVal] at h
+
+
+/-! ## the top-level loop -/
+
+theorem names_ne : (mName == batchName) = false ∧ (columnsName == batchName) = false ∧
+    (columnsName == mName) = false ∧ (mName == columnsName) = false ∧
+    (batchName == mName) = false ∧ (batchName == columnsName) = false := by decide
+
+/-- one iteration of `tryDecodeColumnarTyped`'s key loop, inverted -/
+theorem topLoop_step {k v : MV} {rest : List MV} {st st' : TopSt}
+    (h : typedTopLoop F san (k :: v :: rest) st = some st') :
+    ∃ key, strKey? k = some key ∧ (key == batchName) = false ∧
+      (((key == mName) = true ∧ st.meas = none ∧ ∃ m, typedMeas v = some m ∧
+          typedTopLoop F san rest { st with meas := some m } = some st') ∨
+       ((key == mName) = false ∧ (key == columnsName) = true ∧ st.cols = none ∧
+          ∃ c, typedColumnsVal F san v = some c ∧
+            typedTopLoop F san rest { st with cols := some c } = some st') ∨
+       ((key == mName) = false ∧ (key == columnsName) = false ∧
+          typedTopLoop F san rest st = some st')) := by
+  unfold typedTopLoop at h
+  cases k with
+  | str kw key =>
+    refine ⟨key, rfl, ?_⟩
+    simp only at h
+    cases hb : (key == batchName) with
+    | true => simp [hb] at h
+    | false =>
+      refine ⟨rfl, ?_⟩
+      simp only [hb, Bool.false_eq_true, if_false] at h
+      cases hm : (key == mName) with
+      | true =>
+        simp only [hm, if_true] at h
+        cases hs : st.meas with
+        | some x => simp [hs] at h
+        | none =>
+          simp only [hs, Option.isSome_none, Bool.false_eq_true, if_false] at h
+          cases ht : typedMeas v with
+          | none => simp [ht] at h
+          | some m =>
+            simp only [ht] at h
+            exact Or.inl ⟨rfl, rfl, m, rfl, h⟩
+      | false =>
+        simp only [hm, Bool.false_eq_true, if_false] at h
+        cases hc : (key == columnsName) with
+        | true =>
+          simp only [hc, if_true] at h
+          cases hs : st.cols with
+          | some x => simp [hs] at h
+          | none =>
+            simp only [hs, Option.isSome_none, Bool.false_eq_true, if_false] at h
+            cases ht : typedColumnsVal F san v with
+            | none => simp [ht] at h
+            | some c =>
+              simp only [ht] at h
+              exact Or.inr (Or.inl ⟨rfl, rfl, rfl, c, rfl, h⟩)
+        | false =>
+          simp only [hc, Bool.false_eq_true, if_false] at h
+          exact Or.inr (Or.inr ⟨rfl, rfl, h⟩)
+  | _ => simp at h
+
+theorem typedMeas_box {v : MV} {m : Bytes} (h : typedMeas v = some m) :
+    goBox F v = .ok (boxS v) ∧ extractMeas (some (boxS v)) = some m := by
+  cases v <;> simp_all [typedMeas, goBox, boxS, extractMeas]
+
+/-- everything the glue needs to know about a successful run of the top-level key loop -/
+theorem topLoop_inv (hF : FloatLaws F) (hfix : nonArrayDupFallsBack = true) :
+    ∀ (kvs : List MV) (st st' : TopSt), typedTopLoop F san kvs st = some st' → topCarve kvs = true →
+      KVok F kvs ∧ lookupLastP batchName kvs = none ∧
+      ((lookupLastP mName kvs = none ∧ st'.meas = st.meas) ∨
+        (∃ mv m, lookupLastP mName kvs = some mv ∧ st.meas = none ∧ typedMeas mv = some m ∧
+          st'.meas = some m)) ∧
+      ((lookupLastP columnsName kvs = none ∧ st'.cols = st.cols) ∨
+        (∃ cv c, lookupLastP columnsName kvs = some cv ∧ st.cols = none ∧
+          typedColumnsVal F san cv = some c ∧ colsCarveV cv = true ∧ st'.cols = some c))
+  | [], st, st', h, _ => by
+    simp [typedTopLoop] at h; subst h; simp [KVok, lookupLastP]
+  | [_], st, st', h, _ => by
+    simp [typedTopLoop] at h; subst h; simp [KVok, lookupLastP]
+  | k :: v :: rest, st, st', h, hcv => by
+    obtain ⟨key, hk, hb, hcase⟩ := topLoop_step F san h
+    obtain ⟨kw, rfl⟩ := strKey_eq hk
+    simp only [topCarve, strKey?, Bool.and_eq_true] at hcv
+    obtain ⟨hcv1, hcv2⟩ := hcv
+    have hbk : (some key == some batchName) = false := by simpa using hb
+    rcases hcase with ⟨hm, hsm, m, htm, hrest⟩ | ⟨hm, hc, hsc, c, htc, hrest⟩ | ⟨hm, hc, hrest⟩
+    · -- key = "m"
+      obtain ⟨i1, i2, i3, i4⟩ := topLoop_inv hF hfix rest _ st' hrest hcv2
+      have hkm : key = mName := by simpa using hm
+      subst hkm
+      have hbox := typedMeas_box F htm
+      refine ⟨⟨⟨_, rfl⟩, ⟨_, hbox.1⟩, i1⟩, ?_, ?_, ?_⟩
+      · simp only [lookupLastP, i2, strKey?, hbk, Bool.false_eq_true, if_false]
+      · right
+        rcases i3 with ⟨j1, j2⟩ | ⟨mv, m', _, j2, _⟩
+        · exact ⟨v, m, by simp [lookupLastP, j1, strKey?], hsm, htm, by simpa using j2⟩
+        · simp at j2
+      · have hne : (some mName == some columnsName) = false := by decide
+        rcases i4 with ⟨j1, j2⟩ | ⟨cv, c, j1, j2, j3, j4, j5⟩
+        · left; exact ⟨by simp only [lookupLastP, j1, strKey?, hne, Bool.false_eq_true, if_false], by simpa using j2⟩
+        · right; exact ⟨cv, c, by simp [lookupLastP, j1], by simpa using j2, j3, j4, j5⟩
+    · -- key = "columns"
+      obtain ⟨i1, i2, i3, i4⟩ := topLoop_inv hF hfix rest _ st' hrest hcv2
+      have hkc : key = columnsName := by simpa using hc
+      subst hkc
+      have hcvV : colsCarveV v = true := by
+        have h1 := hcv1
+        simp only [names_ne.2.2.1, names_ne.2.1, Bool.false_eq_true, if_false, if_true, beq_self_eq_true] at h1
+        cases v <;> simp_all [colsCarveV]
+      obtain ⟨w, ckvs, rfl, hbox, _⟩ := columnsVal_agrees F san hF hfix htc hcvV
+      refine ⟨⟨⟨_, rfl⟩, ⟨_, hbox⟩, i1⟩, ?_, ?_, ?_⟩
+      · simp only [lookupLastP, i2, strKey?, hbk, Bool.false_eq_true, if_false]
+      · have hne : (some columnsName == some mName) = false := by decide
+        rcases i3 with ⟨j1, j2⟩ | ⟨mv, m', j1, j2, j3, j4⟩
+        · left; exact ⟨by simp only [lookupLastP, j1, strKey?, hne, Bool.false_eq_true, if_false], by simpa using j2⟩
+        · right; exact ⟨mv, m', by simp [lookupLastP, j1], by simpa using j2, j3, j4⟩
+      · right
+        rcases i4 with ⟨j1, j2⟩ | ⟨cv, c', _, j2, _⟩
+        · exact ⟨_, c, by simp [lookupLastP, j1, strKey?], hsc, htc, hcvV, by simpa using j2⟩
+        · simp at j2
+    · -- ignored key: Skip()
+      obtain ⟨i1, i2, i3, i4⟩ := topLoop_inv hF hfix rest st st' hrest hcv2
+      have hl : leafOk v = true := by
+        have h1 := hcv1
+        simp only [hm, hb, hc, Bool.false_eq_true, if_false] at h1
+        exact h1
+      obtain ⟨g, hg, _⟩ := goBox_leaf F hl
+      have hkm : (some key == some mName) = false := by simpa using hm
+      have hkc : (some key == some columnsName) = false := by simpa using hc
+      refine ⟨⟨⟨_, rfl⟩, ⟨g, hg⟩, i1⟩, ?_, ?_, ?_⟩
+      · simp only [lookupLastP, i2, strKey?, hbk, Bool.false_eq_true, if_false]
+      · rcases i3 with ⟨j1, j2⟩ | ⟨mv, m', j1, j2, j3, j4⟩
+        · left; exact ⟨by simp only [lookupLastP, j1, strKey?, hkm, Bool.false_eq_true, if_false], j2⟩
+        · right; exact ⟨mv, m', by simp [lookupLastP, j1], j2, j3, j4⟩
+      · rcases i4 with ⟨j1, j2⟩ | ⟨cv, c, j1, j2, j3, j4, j5⟩
+        · left; exact ⟨by simp only [lookupLastP, j1, strKey?, hkc, Bool.false_eq_true, if_false], j2⟩
+        · right; exact ⟨cv, c, by simp [lookupLastP, j1], j2, j3, j4, j5⟩
+
+
+/-! ## assembly -/
+
+theorem typedOfMV_inv {now : Int} {v : MV} {r : TypedRec} (h : typedOfMV F san now v = some r) :
+    ∃ w kvs st m cols n, v = .map w kvs ∧ 2 ≤ kvs.length ∧ typedTopLoop F san kvs {} = some st ∧
+      st.meas = some m ∧ st.cols = some (cols, n) ∧ r = typedRecOf m cols n now := by
+  cases v with
+  | map w kvs =>
+    simp only [typedOfMV] at h
+    split at h
+    · simp at h
+    · rename_i hl
+      split at h
+      · rename_i m cols n hT
+        refine ⟨w, kvs, _, m, cols, n, rfl, by omega, hT, rfl, rfl, ?_⟩
+        unfold typedRecOf
+        split at h <;> rename_i hh <;> simp [hh] at h ⊢ <;> exact h.symm
+      · simp at h
+  | _ => simp [typedOfMV] at h
+
+/-- **hit_agrees under the carve-out.** -/
+theorem hit_agrees (hF : FloatLaws F) (hfix : nonArrayDupFallsBack = true) (now : Int) (b : Bytes)
+    (r : TypedRec) (hcarve : Carve b = true) (h : typedPath F san now b = some r) :
+    ∃ r', genericPath F san now b = .ok [.col r'] ∧ maskRec r' = maskRec r := by
+  unfold typedPath at h
+  cases hd : decode b with
+  | none => simp [hd] at h
+  | some vr =>
+    obtain ⟨v, brest⟩ := vr
+    simp only [hd] at h
+    obtain ⟨w, kvs, st, m, cols, n, rfl, hlen, hT, hsm, hsc, rfl⟩ := typedOfMV_inv F san h
+    have hcv : topCarve kvs = true := by simpa [Carve, hd] using hcarve
+    obtain ⟨hkv, hbatch, hmeas, hcols⟩ := topLoop_inv F san hF hfix kvs {} st hT hcv
+    -- measurement
+    obtain ⟨mv, hlm, hmv⟩ : ∃ mv, lookupLastP mName kvs = some mv ∧ typedMeas mv = some m := by
+      rcases hmeas with ⟨_, j2⟩ | ⟨mv, m', j1, _, j3, j4⟩
+      · rw [hsm] at j2; simp at j2
+      · rw [hsm] at j4; simp at j4; subst j4; exact ⟨mv, j1, j3⟩
+    -- columns
+    obtain ⟨cv, hlc, hcvl, hcvc⟩ : ∃ cv, lookupLastP columnsName kvs = some cv ∧
+        typedColumnsVal F san cv = some (cols, n) ∧ colsCarveV cv = true := by
+      rcases hcols with ⟨_, j2⟩ | ⟨cv, c, j1, _, j3, j4, j5⟩
+      · rw [hsc] at j2; simp at j2
+      · rw [hsc] at j5; simp at j5; subst j5; exact ⟨cv, j1, j3, j4⟩
+    obtain ⟨cw, ckvs, rfl, hcbox, hpay, hA, hAlen, hn, hdist, hconv⟩ :=
+      columnsVal_agrees F san hF hfix hcvl hcvc
+    have hmbox := typedMeas_box F hmv
+    -- the body boxes to a string-keyed map
+    have hbox : goBox F (.map w kvs) = .ok (.smap (boxPairs F kvs)) := by
+      have hsmap := goBoxSMap_ok F _ hkv
+      cases kvs with
+      | nil => simp at hlen
+      | cons k rest =>
+        cases rest with
+        | nil => simp at hlen
+        | cons v rest =>
+          obtain ⟨⟨s, hs⟩, _⟩ := hkv
+          obtain ⟨kw, rfl⟩ := strKey_eq hs
+          simp [goBox, hsmap]
+    have hLb := lookupLast_boxPairs F batchName kvs hkv
+    have hLc := lookupLast_boxPairs F columnsName kvs hkv
+    have hLm := lookupLast_boxPairs F mName kvs hkv
+    rw [hbatch] at hLb; rw [hlc] at hLc; rw [hlm] at hLm
+    simp only [Option.map_none, Option.map_some] at hLb hLc hLm
+    have hbc : boxT F (.map cw ckvs) = .smap (boxPairs F ckvs) := by simp [boxT, hcbox]
+    have hbm : boxT F mv = boxS mv := by simp [boxT, hmbox.1]
+    rw [hbc] at hLc; rw [hbm] at hLm
+    obtain ⟨rec, r', hdecC, hty, hmask⟩ :=
+      columnar_agrees F san hF (arrayCols ckvs) cols n m (some (boxS mv)) now hA hAlen hn hdist hconv
+        hmbox.2
+    refine ⟨r', ?_, hmask⟩
+    have hfuel : b.length + 2 = (b.length + 1) + 1 := rfl
+    simp only [genericPath, unmarshal, hd, hbox, genericOfGo, hfuel, decodeMapPayload, hLb, hLc, hLm,
+      hpay, hdecC, hty]
+
 end Arc.C02
